@@ -93,6 +93,13 @@ func Run(p *Plan, ch simsync.Chooser) *Outcome {
 	for c := range p.Clients {
 		calls[c] = p.expanded(c)
 	}
+	for c := range calls {
+		for _, cl := range calls[c] {
+			if cl.Entry == EPar && cl.Rule%NParFam == 10 {
+				parType(cl.N) // run-time types are made here, by one goroutine: during the simulation the table is only read
+			}
+		}
+	}
 	for c := range p.Clients {
 		refs[c] = make([]refT, len(calls[c]))
 		if registers {
